@@ -284,6 +284,7 @@ func (n *Node) Short(depth int) string {
 	return n.String()
 }
 
+// String prints the term down to depth 7 (the DAG printed as a tree can be exponential).
 func (n *Node) String() string {
 	switch n.op {
 	case opZero:
@@ -292,24 +293,10 @@ func (n *Node) String() string {
 		return "1"
 	case opSrc:
 		return fmt.Sprintf("%s.%d", n.src, n.idx)
-	case opNot:
-		return "¬" + n.a.String()
-	case opAnd:
-		return "(" + n.a.String() + "&" + n.b.String() + ")"
-	case opOr:
-		return "(" + n.a.String() + "|" + n.b.String() + ")"
-	case opXor:
-		return "(" + n.a.String() + "^" + n.b.String() + ")"
-	case opMux:
-		return "mux(" + n.c.String() + "," + n.a.String() + "," + n.b.String() + ")"
-	case opApp:
-		var ks []string
-		for i := len(n.kids) - 1; i >= 0; i-- {
-			ks = append(ks, n.kids[i].String())
-		}
-		return fmt.Sprintf("%s[%s].%d", n.src, strings.Join(ks, " "), n.idx)
+	case opTop:
+		return "⊤"
 	}
-	return "⊤"
+	return n.Short(7)
 }
 
 // ---------------------------------------------------------------------------------------------
@@ -1396,7 +1383,11 @@ func (it *Interp) step(st *state, ins ssa.Instruction, depth int) {
 					return
 				}
 			}
-			it.unsup("symbolic index in %s", x.Parent().String())
+			if p, isPtr := it.val(st, x.X).(Ptr); isPtr && strings.HasPrefix(p.Obj.Name, "global:") {
+				it.unsup("lookup at a symbolic index into %s, which is not one of the verified constant tables, in %s", strings.TrimPrefix(p.Obj.Name, "global:"), x.Parent().String())
+			} else {
+				it.unsup("symbolic index in %s", x.Parent().String())
+			}
 			st.regs[x] = OpaqueV{"symbolic index"}
 			return
 		}
